@@ -30,12 +30,12 @@ class ApplyReplicate(Target):
     inline_class = {'cls': (F, 'FlowIR')}
     pure = ('FlowIR.ParseDataReferenceFull', 'FlowIR.compile_reference')
     max_paths = 50000
-    trusted = ["FlowIR.propagate_replicate: consumers of a replicated, non-aggregating producer receive its count (bounded "
-               "stand-in below)", "FlowIR.fill_in resolves %(name)s from the variables it is given (C04 bounded)",
+    trusted = ["networkx DiGraph / topological_sort inside the REAL FlowIR.propagate_replicate (inlined from source, executed "
+               "natively on the concrete graph of the harness)", "FlowIR.fill_in resolves %(name)s from the variables it is given (C04 bounded)",
                "FlowIR.override_object merges the second dictionary INTO the first and returns it (C04 bounded)",
                "ParseDataReferenceFull / compile_reference (C09)"]
-    assumptions = ["chain: producer P (stage 0) -> consumer C (stage 1) -> aggregator A (stage 2), plus an unrelated component "
-                   "X (stage 1); replica count 1..3"]
+    assumptions = ["chain: producer P (stage 0) -> consumer C (stage 1) -> aggregator A (stage 2) -> D (stage 3, which also "
+                   "consumes P directly), plus an unrelated component X (stage 1); every order of the five; replica count 1..3"]
 
     def setup(self, c):
         g = c.ghost
@@ -65,8 +65,12 @@ class ApplyReplicate(Target):
              'references': ['stage1.C/out.txt:copy']}
         X = {'name': 'X', 'stage': 1, 'workflowAttributes': {'replicate': None, 'aggregate': 'no'},
              'variables': {'points': str(other + 1)}, 'references': []}
-        comps = [P, C, A, X]
-        order = list(itertools.permutations(range(4)))[c.choice('order', 24)]
+        # D consumes the AGGREGATOR's output and, directly, the replicated producer: D is replicated because of P, its
+        # reference to the aggregator must not be treated as a reference to a replicated component
+        D = {'name': 'D', 'stage': 3, 'workflowAttributes': {'replicate': None, 'aggregate': False}, 'variables': {},
+             'references': ['stage2.A/agg.txt:copy', 'stage0.P:ref']}
+        comps = [P, C, A, X, D]
+        order = list(itertools.permutations(range(5)))[c.choice('order', 120)]
         comps = [comps[i] for i in order]
         pv = {FlowIR.LabelGlobal: glob, FlowIR.LabelStages: stage_vars}
 
@@ -77,13 +81,6 @@ class ApplyReplicate(Target):
         def aggregate(c, comp, count, refs):
             c.ghost['calls'].append(('aggregate', comp['name'], count, list(refs)))
             return {'name': comp['name'], 'stage': comp['stage']}
-
-        def propagate(c, resolved, ignore, application_dependencies=None, top_level_folders=None):
-            by = {(x.get('stage', 0), x['name']): x for x in resolved}
-            count = by[(0, 'P')]['workflowAttributes']['replicate']
-            c.ghost['resolved_count'] = count
-            c.ghost['resolved_aggregate_X'] = by[(1, 'X')]['workflowAttributes']['aggregate']
-            return {(0, 'P'): (count, False), (1, 'C'): (count, False), (2, 'A'): (count, True), (1, 'X'): (None, False)}
 
         def fill_in(c, value, variables, label=None, is_primitive=True, **kw):
             if isinstance(value, str) and value.startswith('%(') and value.endswith(')s'):
@@ -97,12 +94,12 @@ class ApplyReplicate(Target):
             cls = Obj('FlowIR', LabelStages=FlowIR.LabelStages, LabelGlobal=FlowIR.LabelGlobal,
                       compile_component_replica=Extern('compile_component_replica', replica),
                       compile_component_aggregate=Extern('compile_component_aggregate', aggregate),
-                      propagate_replicate=Extern('propagate_replicate', propagate), fill_in=Extern('fill_in', fill_in),
+                      fill_in=Extern('fill_in', fill_in),
                       override_object=Extern('override_object', override))
         else:
             cls = type('FlowIRStub', (FlowIR,), {})
             for nm, fn in (('compile_component_replica', replica), ('compile_component_aggregate', aggregate),
-                           ('propagate_replicate', propagate), ('fill_in', fill_in), ('override_object', override)):
+                           ('fill_in', fill_in), ('override_object', override)):
                 setattr(cls, nm, Extern(nm, fn))
         return State(args=[cls, comps, pv, False, [], []], cls=cls, n=n, comps=comps, X=X, pv=pv, glob=dict(glob))
 
@@ -127,9 +124,13 @@ class ApplyReplicate(Target):
             elif comp['name'] == 'A':
                 want_calls += [('aggregate', 'A', n, ['stage1.C/out.txt:copy'])]
                 want_names += ['A']
+            elif comp['name'] == 'D':
+                want_calls += [('replica', 'D', i, n, ['stage0.P:ref']) for i in range(n)]
+                want_names += ['D%d' % i for i in range(n)]
             else:
                 want_names += ['X']
-        return [('replica-count-is-resolved-in-the-component-scope', c.ghost.get('resolved_count') == n),
+        totals = {t[3] for t in calls if t[0] == 'replica'} | {t[2] for t in calls if t[0] == 'aggregate'}
+        return [('replica-count-is-resolved-in-the-component-scope', totals == {n}),
                 ('exactly-N-copies-in-index-order-and-one-aggregate', calls == want_calls),
                 ('result-lists-the-copies-in-place', [x['name'] for x in res] == want_names),
                 ('components-outside-the-replicated-region-are-unchanged', any(x is st.X for x in res)),
